@@ -482,8 +482,8 @@ func TestCheck(t *testing.T) {
 			run(algo, evs)
 		})
 	}
-	dEpi := r.Pick(3, 5)
-	dOther := r.Pick(3, 4)
+	dEpi := r.Pick(3, 4)
+	dOther := r.Pick(3, 3)
 	if !r.Thorough() {
 		// quick: depth 4 for epidemic only behind a submit (the interesting quarter of the space)
 		enumerate("exh-epidemic-submit+3", "epidemic", 3, []int{evSubmit})
@@ -506,7 +506,7 @@ func TestCheck(t *testing.T) {
 	// random longer histories
 	for _, a := range algos {
 		a := a
-		r.Group("random-"+a, r.Pick(60, 6000), func(i int, rng *report.Rand) {
+		r.Group("random-"+a, r.Pick(60, 1500), func(i int, rng *report.Rand) {
 			n := 5 + rng.Intn(21)
 			evs := make([]int, n)
 			for k := range evs {
@@ -540,7 +540,7 @@ func TestCheck(t *testing.T) {
 	// bursts: receptions, submissions and a peer appearance back to back, partly at the instant of the retry job
 	for _, a := range []string{"epidemic", "spray", "prophet", "sensor-mule"} {
 		a := a
-		r.Group("burst-"+a, r.Pick(40, 1200), func(i int, rng *report.Rand) {
+		r.Group("burst-"+a, r.Pick(40, 300), func(i int, rng *report.Rand) {
 			err := bubble.Run(nil, func(t *testing.T) { burst(r, a, i, rng) })
 			if err != nil {
 				r.Violation("c05.node-deadlock-or-panic:"+errClass(err), err.Error(), map[string]interface{}{"algorithm": a, "workload": "burst"})
